@@ -250,7 +250,7 @@ func (st *State) assumeRefsOld(v Val) {
 	kinds := leafKinds(v.T)
 	for i, k := range kinds {
 		switch k {
-		case lkRef:
+		case lkRef, lkPl:
 			st.assume(Ult(v.L[i], BVConst(freshRefBase, 64)))
 		}
 	}
